@@ -3,6 +3,7 @@
  * compiled with -fsanitize=address,undefined.
  *
  * usage: harness <names-file> <kmax> <lo> <hi>
+ *        harness <names-file> W <lo> <hi>        (large tables, see below)
  *
  * <names-file> holds the identifier universe, one name per line, ALREADY SORTED BY PYTHON
  * (the same list.sort(key=name) that Recompiler.collect_step_tables uses).  Every subset of
@@ -15,6 +16,12 @@
  * u of the universe is looked up with the real search_in_*() -- the probe is handed over as an
  * exactly-sized heap buffer without NUL terminator, as the tokenizer does (tok->p, tok->size),
  * so that an over-read is an ASan error.  Expected: position of u in S, or -1.
+ *
+ * Mode W (tables of every size 1..N, which the subsets of size <= kmax do not reach): every
+ * CONTIGUOUS window [i, j) of the sorted universe with i in [lo, hi), and every arithmetic
+ * subsequence {o, o+k, o+2k, ...} with offset o in [lo, hi) and step k, o < k < N.  The binary
+ * search then runs with every table length, with the missing probes falling on each side of
+ * every pivot.
  */
 #include <stdio.h>
 #include <stdint.h>
@@ -29,7 +36,7 @@ static const char *get_common_type(const char *search, size_t search_len)
 }
 
 #define MAXN 256
-#define MAXK 6
+#define MAXK 6           /* bound on kmax of the subset mode */
 
 static char *U[MAXN];          /* NUL-terminated (table side) */
 static char *P[MAXN];          /* exact-size, no terminator (probe side) */
@@ -42,7 +49,7 @@ static unsigned char REL[MAXN][MAXN];
 
 static long long n_sets, n_calls, n_found, n_notfound, n_bad;
 static long long cls[5];       /* member, probe-is-prefix, member-is-prefix, common-first-char, unrelated */
-static long long by_size[MAXK + 1];
+static long long by_size[MAXN + 1];
 
 struct odd_item { long pad; const char *name; long tail[3]; };   /* 40 bytes, name not first */
 
@@ -58,19 +65,13 @@ static void report_bad(const char *table, const int *idx, int k, int probe, int 
     printf(" probe=%d got=%d want=%d\n", probe, got, want);
 }
 
-static void run_set(const int *idx, int k)
+static void run_tables(const int *idx, int k, struct _cffi_global_s *g, struct _cffi_struct_union_s *s,
+                       struct _cffi_enum_s *e, struct _cffi_typename_s *t, struct odd_item *o)
 {
-    struct _cffi_global_s       g[MAXK + 1];
-    struct _cffi_struct_union_s s[MAXK + 1];
-    struct _cffi_enum_s         e[MAXK + 1];
-    struct _cffi_typename_s     t[MAXK + 1];
-    struct odd_item             o[MAXK + 1];
     struct _cffi_type_context_s ctx;
     int j, u;
 
     memset(&ctx, 0, sizeof(ctx));
-    memset(g, 0, sizeof(g)); memset(s, 0, sizeof(s));
-    memset(e, 0, sizeof(e)); memset(t, 0, sizeof(t)); memset(o, 0, sizeof(o));
     for (j = 0; j < k; j++) {
         g[j].name = U[idx[j]];
         s[j].name = U[idx[j]];
@@ -112,6 +113,35 @@ static void run_set(const int *idx, int k)
     }
 }
 
+/* subset mode: small tables on the stack (one zeroed entry behind the last one) */
+static void run_set(const int *idx, int k)
+{
+    struct _cffi_global_s       g[MAXK + 1];
+    struct _cffi_struct_union_s s[MAXK + 1];
+    struct _cffi_enum_s         e[MAXK + 1];
+    struct _cffi_typename_s     t[MAXK + 1];
+    struct odd_item             o[MAXK + 1];
+
+    memset(g, 0, sizeof(g)); memset(s, 0, sizeof(s));
+    memset(e, 0, sizeof(e)); memset(t, 0, sizeof(t)); memset(o, 0, sizeof(o));
+    run_tables(idx, k, g, s, e, t, o);
+}
+
+/* mode W: exactly-sized heap tables, an access to entry -1 or entry k is an ASan report
+   (too slow for the 1.3 M tables of the subset mode: ASan's malloc) */
+static void run_set_heap(const int *idx, int k)
+{
+    struct _cffi_global_s       *g = calloc(k, sizeof(*g));
+    struct _cffi_struct_union_s *s = calloc(k, sizeof(*s));
+    struct _cffi_enum_s         *e = calloc(k, sizeof(*e));
+    struct _cffi_typename_s     *t = calloc(k, sizeof(*t));
+    struct odd_item             *o = calloc(k, sizeof(*o));
+
+    if (!g || !s || !e || !t || !o) { fprintf(stderr, "out of memory\n"); exit(2); }
+    run_tables(idx, k, g, s, e, t, o);
+    free(g); free(s); free(e); free(t); free(o);
+}
+
 static void rec(int *idx, int depth, int start, int kmax)
 {
     int i;
@@ -127,7 +157,7 @@ int main(int argc, char **argv)
 {
     FILE *f;
     char line[128];
-    int kmax, lo, hi, i, j, idx[MAXK + 1];
+    int kmax, lo, hi, i, j, k, n, wmode, idx[MAXN + 1];
 
     if (argc != 5) { fprintf(stderr, "usage\n"); return 2; }
     f = fopen(argv[1], "r");
@@ -143,7 +173,8 @@ int main(int argc, char **argv)
         N++;
     }
     fclose(f);
-    kmax = atoi(argv[2]); lo = atoi(argv[3]); hi = atoi(argv[4]);
+    wmode = (argv[2][0] == 'W');
+    kmax = wmode ? 0 : atoi(argv[2]); lo = atoi(argv[3]); hi = atoi(argv[4]);
     if (kmax > MAXK) { fprintf(stderr, "kmax too large\n"); return 2; }
 
     for (i = 0; i < N; i++)
@@ -159,9 +190,23 @@ int main(int argc, char **argv)
     for (i = 0; i + 1 < N; i++)
         if (REL[i][i + 1] == 1) { fprintf(stderr, "duplicate name in universe\n"); return 2; }
 
-    if (lo == 0)
+    if (wmode) {
+        for (i = lo; i < hi && i < N; i++) {
+            for (j = i + 1; j <= N; j++) {          /* window [i, j) */
+                for (n = 0; n < j - i; n++) idx[n] = i + n;
+                run_set_heap(idx, j - i);
+            }
+            for (k = i + 1; k < N; k++) {           /* offset i, step k */
+                if (k < 2) continue;
+                for (n = 0, j = i; j < N; j += k) idx[n++] = j;
+                run_set_heap(idx, n);
+            }
+        }
+        kmax = N;
+    }
+    else if (lo == 0)
         run_set(idx, 0);                 /* the empty table (non-NULL base, length 0) */
-    if (kmax >= 1)
+    if (!wmode && kmax >= 1)
         for (i = lo; i < hi && i < N; i++) {
             idx[0] = i;
             run_set(idx, 1);
